@@ -74,6 +74,20 @@ theorem C02_mask_eval_eq_spec_partial (T : Table β) (xs : List β) (cs : List N
     ndsplineeval T xs cs mask = specEval T xs (maskModes T.dims.length mask) :=
   ndsplineeval_mask_eq_specEval T xs cs mask (allOK_of_search T.dims xs cs hwf.dims hlen hnd hs) hwf.stride
 
+/-- **Arbitrary-order derivatives = specification.**  `ndsplineeval_deriv` with per-dimension
+derivative orders `ks` (0 = value, 1 = single derivative, `k ≥ 2` = the recursive routine) equals the
+sum over all coefficients of coefficient × Π_d (k_d-th iterated knot-difference derivative of the basis
+function), provided every dimension with `k_d ≥ 2` has its coordinate below `knots[naxes]` or not on a
+knot (there the recursive routine's right-continuous convention differs from plain evaluation: known
+finding `deriv>=2-at-upper-knot`).  Exact arithmetic; IEEE faithfulness of the recursive routine needs
+strictly increasing knots (no 0/0), which the correspondence generator respects. -/
+theorem C02_deriv_eval_eq_spec_partial (T : Table β) (xs : List β) (cs : List Nat) (ks : List Nat) (hwf : T.WF)
+    (hlen : T.dims.length = xs.length) (hnd : AllNonDegenerate T.dims xs)
+    (hs : @searchCenters β (cmpLO β) (T.dims.map Dim.axis) xs = .ok cs)
+    (hks : AllModesOK T.dims xs (derivModes ks)) :
+    ndsplineevalDeriv T xs cs ks = specEval T xs (derivModes ks) :=
+  evalModes_eq_specEval T xs cs _ (allOK_of_search T.dims xs cs hwf.dims hlen hnd hs) hks hwf.stride
+
 /-- **The knot-difference formula is the true derivative of the polynomial piece**: `Pp` is the
 piece of basis function `i` on interval `left` as a `Polynomial`, its evaluation is what the code's
 value recurrence computes (`Bp`), and the evaluation of its `Polynomial.derivative` is the formula
